@@ -2006,6 +2006,18 @@ func (db *DB) CommitJournal(ctx context.Context, mode JournalMode) (err error) {
 	}
 	defer func() { _ = dbFile.Close() }()
 
+	// If the database had no pages and its file is still empty then the first
+	// transaction has been rolled back. There is nothing to capture so
+	// continue with the invalidation only.
+	if fi, err := dbFile.Stat(); err != nil {
+		return fmt.Errorf("cannot stat database file: %w", err)
+	} else if fi.Size() == 0 && prevPageN == 0 {
+		if err := db.invalidateJournal(mode); err != nil {
+			return fmt.Errorf("invalidate journal: %w", err)
+		}
+		return nil
+	}
+
 	var commit uint32
 	if _, err := dbFile.Seek(SQLITE_DATABASE_SIZE_OFFSET, io.SeekStart); err != nil {
 		return fmt.Errorf("cannot seek to database size: %w", err)
